@@ -1,6 +1,7 @@
 package eng
 
 import (
+	"regexp"
 	"bytes"
 	"context"
 	"crypto/sha256"
@@ -38,6 +39,47 @@ func (ob *Obligation) smt(withModel bool, dropDefs bool) string {
 	if withModel {
 		b.WriteString("(get-model)\n")
 	}
+	return b.String()
+}
+
+var sfSym = regexp.MustCompile(`sf\$[A-Za-z0-9_]+`)
+
+// smtRel is the obligation without the premises that talk about a recursive spec function the goal does
+// not mention (a subset of the premises: only "unsat" means anything). Long chains of quantified facts
+// about the parse functions otherwise drown goals that no longer need them (the facts they need were
+// established by the earlier clauses of the same contract). Returns "" when nothing would be dropped.
+func (ob *Obligation) smtRel() string {
+	inGoal := map[string]bool{}
+	for _, m := range sfSym.FindAllString(ob.Goal.Key(), -1) {
+		inGoal[m] = true
+	}
+	var keep []*Term
+	dropped := 0
+	for _, p := range ob.Premises {
+		drop := false
+		for _, m := range sfSym.FindAllString(p.Key(), -1) {
+			if !inGoal[m] {
+				drop = true
+				break
+			}
+		}
+		if drop {
+			dropped++
+			continue
+		}
+		keep = append(keep, p)
+	}
+	if dropped == 0 {
+		return ""
+	}
+	var b strings.Builder
+	all := append(append([]*Term(nil), keep...), ob.Goal)
+	b.WriteString("(set-logic ALL)\n")
+	b.WriteString(Decls(all))
+	for _, p := range keep {
+		b.WriteString("(assert " + p.Key() + ")\n")
+	}
+	b.WriteString("(assert (not " + ob.Goal.Key() + "))\n(check-sat)\n")
 	return b.String()
 }
 
@@ -284,7 +326,7 @@ func dischargeOne(ob *Obligation, cfg SolverCfg) {
 			break
 		}
 	}
-	rc := make(chan res, 4*len(solvers))
+	rc := make(chan res, 6*len(solvers))
 	for _, s := range solvers {
 		s := s
 		go func() {
@@ -317,6 +359,22 @@ func dischargeOne(ob *Obligation, cfg SolverCfg) {
 					a = "unknown" // a model of fewer premises says nothing
 				}
 				rc <- res{s.name + "/nodefs", a, o, el}
+			}()
+		}
+	}
+	if rel := ob.smtRel(); rel != "" {
+		file3 := filepath.Join(cfg.Dir, key+".rel.smt2")
+		_ = os.WriteFile(file3, []byte(rel), 0o644)
+		defer os.Remove(file3)
+		for _, s := range []solverRun{solvers[0], solvers[2]} {
+			s := s
+			nruns++
+			go func() {
+				a, o, el := runSolver(rctx, s, file3, cfg.Full)
+				if a != "unsat" {
+					a = "unknown" // a model of fewer premises says nothing
+				}
+				rc <- res{s.name + "/relevant", a, o, el}
 			}()
 		}
 	}
